@@ -136,8 +136,11 @@ def run_direct(d, paths, spec, use_buffer_dir=False):
             if use_buffer_dir:
                 buf = d / 'direct_buffer'
                 buf.mkdir(exist_ok=True)
-            lk = {lv: cfg['bootstrap_factor'] for lv in tree.hierarchy[:-1]}
-            lk['None'] = cfg['bootstrap_factor']
+            if cfg.get('bootstrap_factor_lookup'):
+                lk = {k: v for k, v in cfg['bootstrap_factor_lookup']}
+            else:
+                lk = {lv: cfg['bootstrap_factor'] for lv in tree.hierarchy[:-1]}
+                lk['None'] = cfg['bootstrap_factor']
             res = run_type_assignment_on_h5ad(
                 query_h5ad_path=paths['query'], precomputed_stats_path=paths['stats'],
                 marker_gene_cache_path=cache, taxonomy_tree=tree,
